@@ -6,6 +6,11 @@ well-formed history of add_subdomains / add_interface / remove_subdomain / repla
 which every accepted call is well-formed (`wfHist`, a decidable check defined in Model.lean:
 interfaces are added between present subdomains with a mortar grid of dimension ≤ both;
 replacement grids are fresh objects of the same dimension).  Rejected calls may be anything.
+
+Structure: `reachable_inv` (one container) and `world_inv` (any number of containers produced by
+`copy()`) show by induction over ALL well-formed histories that every container satisfies the
+explicit consistency predicate `Inv` (`DInv` with the data dictionaries).  The property theorems
+below are stated for every state satisfying `Inv`, hence for every state of every such history.
 -/
 import PorepyVerif.C24.Lemmas
 
@@ -55,7 +60,7 @@ theorem Reachable.step {U : Universe} {s : State} (h : Reachable U s) (op : Op)
     `codim` filter — succeed and return each present (matching) object exactly once, strictly
     sorted by decreasing dimension, then increasing creation id.
     (`boundaries()` raises by design when there are subdomains but none of positive dimension.) -/
-theorem listing_sorted_nodup (U : Universe) (s : State) (h : Reachable U s) (dim codim : Option Nat) :
+theorem listing_sorted_nodup (U : Universe) (s : State) (hi : Inv U s) (dim codim : Option Nat) :
     (∃ l, listSubdomains U s dim = .ok l ∧
         l ~ s.sds.filter (fun g => optMatch dim (U.sdDim g)) ∧ l.Nodup ∧
         l.Pairwise (keyLt U.sdDim id)) ∧
@@ -66,7 +71,6 @@ theorem listing_sorted_nodup (U : Universe) (s : State) (h : Reachable U s) (dim
       ∃ l, listBoundaries U s dim = .ok l ∧
         l ~ s.bgs.filter (fun b => optMatch dim (bgDim U b)) ∧ l.Nodup ∧
         l.Pairwise (keyLt (bgDim U) (·.2))) := by
-  have hi := h.inv
   refine ⟨?_, ?_, ?_⟩
   · apply sortGrids_spec
     · intro he; rw [he]; rfl
@@ -96,11 +100,11 @@ theorem listing_sorted_nodup (U : Universe) (s : State) (h : Reachable U s) (dim
     · exact hi.bgNodup.sublist (filter_sublist.map _)
 
 /-- unfiltered form: exactly the present subdomains / interfaces -/
-theorem listing_all (U : Universe) (s : State) (h : Reachable U s) :
+theorem listing_all (U : Universe) (s : State) (hi : Inv U s) :
     (∃ l, listSubdomains U s none = .ok l ∧ l ~ s.sds ∧ l.Nodup ∧ l.Pairwise (keyLt U.sdDim id)) ∧
     (∃ l, listInterfaces U s none none = .ok l ∧ l ~ s.intfs ∧ l.Nodup ∧
         l.Pairwise (keyLt U.ifDim id)) := by
-  have := listing_sorted_nodup U s h none none
+  have := listing_sorted_nodup U s hi none none
   have ft : ∀ (l : List Nat), l.filter (fun _ => true) = l := fun l => filter_eq_self.2 (by simp)
   simpa [optMatch, ft] using And.intro this.1 this.2.1
 
@@ -111,7 +115,7 @@ theorem listing_all (U : Universe) (s : State) (h : Reachable U s) :
     first; equal dimension: smaller id first); `subdomain_pair_to_interface` applied to that pair
     in either order leads back to an interface with the same pair, and to `i` itself whenever no
     other interface joins the same two subdomains. -/
-theorem interface_pair_roundtrip (U : Universe) (s : State) (h : Reachable U s) {i a b : Nat}
+theorem interface_pair_roundtrip (U : Universe) (s : State) (hi : Inv U s) {i a b : Nat}
     (hp : (i, a, b) ∈ s.pairs) :
     pairOf U s i = .ok (sort2 U a b) ∧
     (sort2 U a b = (a, b) ∨ sort2 U a b = (b, a)) ∧
@@ -120,7 +124,6 @@ theorem interface_pair_roundtrip (U : Universe) (s : State) (h : Reachable U s) 
     (∀ x y, (x, y) = sort2 U a b ∨ (y, x) = sort2 U a b →
       ∃ j, intfOfPair s x y = .ok j ∧ pairOf U s j = .ok (sort2 U a b) ∧
         ((∀ j' a' b', (j', a', b') ∈ s.pairs → sort2 U a' b' = sort2 U a b → j' = i) → j = i)) := by
-  have hi := h.inv
   have hm := hi.pairMem _ hp
   refine ⟨pairOf_of_mem hi hp, sort2_cases U a b, ?_, ?_, sort2_sorted U a b, ?_⟩
   · rcases sort2_cases U a b with e | e <;> rw [e]
@@ -154,14 +157,100 @@ theorem interface_pair_roundtrip (U : Universe) (s : State) (h : Reachable U s) 
       · exact huniq j x y hjm hs
       · exact huniq j y x hjm (by rw [sort2_comm, hs])
 
+/-! ### per-subdomain queries -/
+
+/-- PROPERTY (`subdomain_to_interfaces`): for any grid `g` the call succeeds and returns exactly
+    the interfaces whose stored pair contains `g`, each once, strictly sorted (dimension
+    descending, id ascending); for a grid that is not in the container the list is empty. -/
+theorem subdomain_to_interfaces_spec (U : Universe) (s : State) (hi : Inv U s) (g : Nat) :
+    ∃ l, intfsOfSd U s g = .ok l ∧ l ~ s.intfs.filter (touchesI s g) ∧ l.Nodup ∧
+      l.Pairwise (keyLt U.ifDim id) ∧ (g ∉ s.sds → l = []) := by
+  have heq : (s.pairs.filter (touches g)).map (·.1) = s.intfs.filter (touchesI s g) := by
+    unfold State.intfs
+    rw [filter_map]
+    congr 1
+    apply filter_congr
+    intro p hp
+    obtain ⟨i, a, b⟩ := p
+    simp only [Function.comp, touchesI, lookup_eq_some_of_mem hi.intfNodup hp, touches]
+  obtain ⟨l, hl, hp, hn, hs⟩ := sortGrids_spec U s U.ifDim id ((s.pairs.filter (touches g)).map (·.1))
+    (by intro he; rw [pairs_nil_of_sds_nil hi he]; rfl)
+    (by
+      intro x hx
+      rw [heq] at hx
+      exact ifDim_le_dimMax hi (mem_filter.1 hx).1)
+    (by rw [map_id, heq]; exact hi.intfNodup.sublist filter_sublist)
+  refine ⟨l, hl, heq ▸ hp, hn, hs, ?_⟩
+  intro hg
+  have : s.pairs.filter (touches g) = [] := by
+    rw [filter_eq_nil_iff]
+    intro p hp ht
+    have hm := hi.pairMem p hp
+    simp only [touches, Bool.or_eq_true, beq_iff_eq] at ht
+    rcases ht with e | e
+    · exact hg (e ▸ hm.1)
+    · exact hg (e ▸ hm.2)
+  rw [this] at hp
+  simpa using hp
+
+/-- PROPERTY (`neighboring_subdomains`): asking for only higher and only lower neighbours at once
+    is refused; otherwise the call returns, sorted (dimension descending, id ascending), the other
+    ends of all interfaces of `g` (one entry per interface; `g` itself for an interface from `g` to
+    itself), restricted to strictly higher / strictly lower dimension when asked; every neighbour
+    is a present subdomain. -/
+theorem neighboring_subdomains_spec (U : Universe) (s : State) (hi : Inv U s) (g : Nat) :
+    neighbours U s g true true = .error .valueError ∧
+    (∃ l, neighbours U s g false false = .ok l ∧ l ~ s.pairs.filterMap (otherEnd g) ∧
+      l.Pairwise (keyLe U.sdDim id) ∧ ∀ x ∈ l, x ∈ s.sds) ∧
+    (∃ l, neighbours U s g true false = .ok l ∧
+      l ~ (s.pairs.filterMap (otherEnd g)).filter (fun x => decide (U.sdDim g < U.sdDim x)) ∧
+      l.Pairwise (keyLe U.sdDim id) ∧ ∀ x ∈ l, x ∈ s.sds ∧ U.sdDim g < U.sdDim x) ∧
+    (∃ l, neighbours U s g false true = .ok l ∧
+      l ~ (s.pairs.filterMap (otherEnd g)).filter (fun x => decide (U.sdDim x < U.sdDim g)) ∧
+      l.Pairwise (keyLe U.sdDim id) ∧ ∀ x ∈ l, x ∈ s.sds ∧ U.sdDim x < U.sdDim g) ∧
+    (∀ x, x ∈ s.pairs.filterMap (otherEnd g) ↔
+      ∃ p ∈ s.pairs, (p.2.1 = g ∧ p.2.2 = x) ∨ (p.2.1 ≠ g ∧ p.2.2 = g ∧ p.2.1 = x)) := by
+  have hmem : ∀ x ∈ s.pairs.filterMap (otherEnd g), x ∈ s.sds := by
+    intro x hx
+    obtain ⟨p, hp, hc⟩ := mem_filterMap_otherEnd.1 hx
+    have hm := hi.pairMem p hp
+    rcases hc with ⟨_, e⟩ | ⟨_, _, e⟩
+    · exact e ▸ hm.2
+    · exact e ▸ hm.1
+  have hempty : s.sds = [] → s.pairs.filterMap (otherEnd g) = [] := by
+    intro he; rw [pairs_nil_of_sds_nil hi he]; rfl
+  refine ⟨rfl, ?_, ?_, ?_, fun x => mem_filterMap_otherEnd⟩
+  · obtain ⟨l, hl, hp, hs⟩ := sortGrids_spec_le U s U.sdDim id (s.pairs.filterMap (otherEnd g))
+      hempty (fun x hx => le_dimMax U (hmem x hx))
+    refine ⟨l, ?_, hp, hs, fun x hx => hmem x (hp.mem_iff.1 hx)⟩
+    simpa [neighbours] using hl
+  · obtain ⟨l, hl, hp, hs⟩ := sortGrids_spec_le U s U.sdDim id
+      ((s.pairs.filterMap (otherEnd g)).filter (fun x => decide (U.sdDim g < U.sdDim x)))
+      (by intro he; rw [hempty he]; rfl)
+      (fun x hx => le_dimMax U (hmem x (mem_filter.1 hx).1))
+    refine ⟨l, ?_, hp, hs, ?_⟩
+    · simpa [neighbours] using hl
+    · intro x hx
+      have := mem_filter.1 (hp.mem_iff.1 hx)
+      exact ⟨hmem x this.1, by simpa using this.2⟩
+  · obtain ⟨l, hl, hp, hs⟩ := sortGrids_spec_le U s U.sdDim id
+      ((s.pairs.filterMap (otherEnd g)).filter (fun x => decide (U.sdDim x < U.sdDim g)))
+      (by intro he; rw [hempty he]; rfl)
+      (fun x hx => le_dimMax U (hmem x (mem_filter.1 hx).1))
+    refine ⟨l, ?_, hp, hs, ?_⟩
+    · simpa [neighbours] using hl
+    · intro x hx
+      have := mem_filter.1 (hp.mem_iff.1 hx)
+      exact ⟨hmem x this.1, by simpa using this.2⟩
+
 /-! ### removal -/
 
 /-- PROPERTY (removal): `remove_subdomain(g)` of a present subdomain succeeds and deletes exactly
     `g`, the interfaces that have `g` as one of their subdomains, and `g`'s boundary grid;
     every other subdomain, interface (with its pair) and boundary grid stays, and the listings
     after the call are the listings before with exactly those objects deleted. -/
-theorem remove_exact (U : Universe) (s : State) (h : Reachable U s) {g : Nat} (hg : g ∈ s.sds) :
-    ∃ s', removeSubdomain s g = .ok s' ∧ Reachable U s' ∧
+theorem remove_exact (U : Universe) (s : State) (hi : Inv U s) {g : Nat} (hg : g ∈ s.sds) :
+    ∃ s', removeSubdomain s g = .ok s' ∧ Inv U s' ∧
       (∀ x, x ∈ s'.sds ↔ x ∈ s.sds ∧ x ≠ g) ∧
       (∀ p, p ∈ s'.pairs ↔ p ∈ s.pairs ∧ p.2.1 ≠ g ∧ p.2.2 ≠ g) ∧
       (∀ b, b ∈ s'.bgs ↔ b ∈ s.bgs ∧ b.1 ≠ g) ∧
@@ -171,24 +260,21 @@ theorem remove_exact (U : Universe) (s : State) (h : Reachable U s) {g : Nat} (h
         listInterfaces U s' none none = .ok (l.filter (fun i => !touchesI s g i))) ∧
       (∀ i ∈ s'.intfs, pairOf U s' i = pairOf U s i) ∧
       bgOfSd s' g = none ∧ (∀ x, x ≠ g → bgOfSd s' x = bgOfSd s x) := by
-  have hi := h.inv
   have hrm := removeSubdomain_eq hg
-  have hr : Reachable U (removeState s g) := by
-    have := h.step (.removeSubdomain g) rfl
-    simpa [C24.step, hrm] using this
+  have hr : Inv U (removeState s g) := inv_removeSubdomain hi hrm
   refine ⟨_, hrm, hr, ?_, ?_, ?_, ?_, ?_, ?_, ?_, ?_⟩
   · intro x; simp [removeState]
   · intro p; simp [removeState, touches]
   · intro b; simp [removeState]
   · intro l hl
-    obtain ⟨l0, hl0, hp0, _, hs0⟩ := (listing_all U s h).1
+    obtain ⟨l0, hl0, hp0, _, hs0⟩ := (listing_all U s hi).1
     obtain ⟨l1, hl1, hp1, _, hs1⟩ := (listing_all U _ hr).1
     rw [hl0] at hl; cases hl
     rw [hl1]
     congr 1
     exact eq_of_perm_of_strict U.sdDim id hs1 (hs0.filter _) (hp1.trans (hp0.filter _).symm)
   · intro l hl
-    obtain ⟨l0, hl0, hp0, _, hs0⟩ := (listing_all U s h).2
+    obtain ⟨l0, hl0, hp0, _, hs0⟩ := (listing_all U s hi).2
     obtain ⟨l1, hl1, hp1, _, hs1⟩ := (listing_all U _ hr).2
     rw [hl0] at hl; cases hl
     rw [hl1]
@@ -201,7 +287,7 @@ theorem remove_exact (U : Universe) (s : State) (h : Reachable U s) {g : Nat} (h
     rcases mem_map.1 hi' with ⟨p, hp, rfl⟩
     obtain ⟨i, a, b⟩ := p
     have hp0 : (i, a, b) ∈ s.pairs := (mem_filter.1 hp).1
-    rw [pairOf_of_mem hr.inv hp, pairOf_of_mem hi hp0]
+    rw [pairOf_of_mem hr hp, pairOf_of_mem hi hp0]
   · exact lookup_filter_self g s.bgs
   · intro x hx
     exact lookup_filter_ne s.bgs hx
@@ -211,13 +297,12 @@ theorem remove_exact (U : Universe) (s : State) (h : Reachable U s) {g : Nat} (h
 /-- PROPERTY (boundary grids): every present subdomain of positive dimension has exactly one
     boundary grid (the one `subdomain_to_boundary_grid` returns), a 0-d subdomain has none, there
     are no boundary grids of absent subdomains, and distinct subdomains have distinct ones. -/
-theorem one_boundary_grid_per_positive_dim (U : Universe) (s : State) (h : Reachable U s) :
+theorem one_boundary_grid_per_positive_dim (U : Universe) (s : State) (hi : Inv U s) :
     (∀ g ∈ s.sds, 0 < U.sdDim g →
       ∃ b, bgOfSd s g = some b ∧ s.bgs.filter (fun e => e.1 == g) = [(g, b)]) ∧
     (∀ g ∈ s.sds, U.sdDim g = 0 → bgOfSd s g = none ∧ s.bgs.filter (fun e => e.1 == g) = []) ∧
     (∀ e ∈ s.bgs, e.1 ∈ s.sds ∧ 0 < U.sdDim e.1) ∧
     (s.bgs.map (·.2)).Nodup := by
-  have hi := h.inv
   have hkn : (s.bgs.map (·.1)).Nodup := by
     rw [hi.bgKeys]; exact hi.sdsNodup.sublist filter_sublist
   refine ⟨?_, ?_, fun e he => bg_parent_mem hi he, hi.bgNodup⟩
@@ -239,10 +324,12 @@ theorem one_boundary_grid_per_positive_dim (U : Universe) (s : State) (h : Reach
     dimension succeeds; `new` takes the place of `old` among the subdomains; the interfaces are
     the same objects and each reports its former pair with `old` replaced by `new`; `old`'s
     boundary grid is gone, `new` has a freshly created one iff its dimension is positive, and all
-    other boundary grids are untouched. -/
-theorem replace_exact (U : Universe) (s : State) (h : Reachable U s) {old new : Nat}
-    (ho : old ∈ s.sds) (hn : new ∉ s.sds) (hd : U.sdDim new = U.sdDim old) :
-    ∃ s' c, replace1 U s old new = .ok (s', c) ∧ Reachable U s' ∧
+    other boundary grids are untouched.  (`hsup`: none of the mortar updates the call makes is
+    one of the dimension combinations `MortarGrid` does not implement.) -/
+theorem replace_exact (U : Universe) (s : State) (hi : Inv U s) {old new : Nat}
+    (ho : old ∈ s.sds) (hn : new ∉ s.sds) (hd : U.sdDim new = U.sdDim old)
+    (hsup : (plannedCalls U s old new).any (callFails U) = false) :
+    ∃ s' c, replace1 U s old new = .ok (s', c) ∧ Inv U s' ∧
       (∀ x, x ∈ s'.sds ↔ (x ∈ s.sds ∨ x = new) ∧ x ≠ old) ∧
       s'.intfs = s.intfs ∧
       (∀ i a b, (i, a, b) ∈ s.pairs →
@@ -250,23 +337,15 @@ theorem replace_exact (U : Universe) (s : State) (h : Reachable U s) {old new : 
       bgOfSd s' old = none ∧
       bgOfSd s' new = (if 0 < U.sdDim new then some s.nextBg else none) ∧
       (∀ x, x ≠ old → x ≠ new → bgOfSd s' x = bgOfSd s x) := by
-  have hi := h.inv
   have hc : s.sds.contains old = true := by simpa using ho
   have hne : new ≠ old := fun e => hn (e ▸ ho)
-  obtain ⟨s', c, hr⟩ : ∃ s' c, replace1 U s old new = .ok (s', c) := by
-    cases hr : replace1 U s old new with
-    | error e => exact absurd ho (replace1_error hr).1
-    | ok r => exact ⟨r.1, r.2, rfl⟩
-  obtain ⟨_, hs'⟩ := replace1_ok hr
-  have hreach : Reachable U s' := by
-    have hw : wfOp U s (.replace [] [(old, new)]) = true := by
-      simp [wfOp, wfReplace, hr, hn, hd]
-    have := h.step (.replace [] [(old, new)]) hw
-    simpa [C24.step, replaceMany, hr] using this
-  have hi' := hreach.inv
+  obtain ⟨s', c, hr⟩ : ∃ s' c, replace1 U s old new = .ok (s', c) :=
+    ⟨_, _, replace1_eq_ok ho hsup⟩
+  obtain ⟨_, hs', _, _⟩ := replace1_ok hr
+  have hi' : Inv U s' := hs' ▸ inv_replaceState hi ho hn hd
   have hnk : new ∉ s.bgs.map (·.1) := by
     rw [hi.bgKeys]; intro hm; exact hn (mem_filter.1 hm).1
-  refine ⟨s', c, hr, hreach, ?_, ?_, ?_, ?_, ?_, ?_⟩
+  refine ⟨s', c, hr, hi', ?_, ?_, ?_, ?_, ?_, ?_⟩
   · intro x; rw [hs']; exact mem_replaceState_sds hn
   · rw [hs']; exact replaceState_intfs U s old new
   · intro i a b hp
@@ -319,34 +398,45 @@ theorem replace_exact (U : Universe) (s : State) (h : Reachable U s) {old new : 
     · rfl
 
 /-- Fidelity of the replacement loop: in a reachable state the sorted list
-    `subdomain_to_interfaces(old)` that the code iterates over (computed after the new grid has
-    been inserted) contains every interface of `old` exactly once — `argsort_grids` drops nothing —
-    and `interface_to_subdomain_pair` succeeds on each of them with the `sort2` ordering.  So the
-    model's "rewrite every entry that touches `old`" is what the loop does. -/
-theorem replace_loop_visits_all (U : Universe) (s : State) (h : Reachable U s) {old : Nat}
-    (new : Nat) :
-    argsortFrom U.ifDim id (dimMax U (if s.sds.contains new then s.sds else s.sds ++ [new]))
-        ((s.pairs.filter (touches old)).map (·.1)) ~ (s.pairs.filter (touches old)).map (·.1) ∧
+    `subdomain_to_interfaces(old)` that the code iterates over contains every interface of `old`
+    exactly once — `argsort_grids` drops nothing — and `interface_to_subdomain_pair` succeeds on
+    each of them with the `sort2` ordering.  So the model's "rewrite every entry that touches
+    `old`" is what the loop does. -/
+theorem replace_loop_visits_all (U : Universe) (s : State) (hi : Inv U s) (old : Nat) :
+    argsortFrom U.ifDim id (dimMax U s.sds) ((s.pairs.filter (touches old)).map (·.1))
+        ~ (s.pairs.filter (touches old)).map (·.1) ∧
     (∀ p ∈ s.pairs, pairOf U s p.1 = .ok (sort2 U p.2.1 p.2.2)) := by
-  have hi := h.inv
   refine ⟨?_, fun p hp => pairOf_of_mem hi hp⟩
   have hf : ((s.pairs.filter (touches old)).map (·.1)).filter
-      (fun x => decide (U.ifDim x ≤ dimMax U (if s.sds.contains new then s.sds else s.sds ++ [new])))
-      = (s.pairs.filter (touches old)).map (·.1) := by
+      (fun x => decide (U.ifDim x ≤ dimMax U s.sds)) = (s.pairs.filter (touches old)).map (·.1) := by
     rw [filter_eq_self]
     intro i hmem
     rcases mem_map.1 hmem with ⟨p, hpf, rfl⟩
     have hp0 := (mem_filter.1 hpf).1
-    have hm : p.2.1 ∈ (if s.sds.contains new then s.sds else s.sds ++ [new]) := by
-      split
-      · exact (hi.pairMem p hp0).1
-      · exact mem_append_left _ (hi.pairMem p hp0).1
-    simpa using Nat.le_trans (hi.pairDim p hp0).1 (le_dimMax U hm)
-  have hp := argsortFrom_perm U.ifDim id
-    (dimMax U (if s.sds.contains new then s.sds else s.sds ++ [new]))
-    ((s.pairs.filter (touches old)).map (·.1))
+    simpa using Nat.le_trans (hi.pairDim p hp0).1 (le_dimMax U (hi.pairMem p hp0).1)
+  have hp := argsortFrom_perm U.ifDim id (dimMax U s.sds) ((s.pairs.filter (touches old)).map (·.1))
   rw [hf] at hp
   exact hp
+
+/-- PROPERTY (failed replacement is atomic): an `sd_map` item fails only because the old grid is
+    absent (KeyError, no mortar grid touched) or because one of its mortar updates is not
+    implemented for the dimensions involved (NotImplementedError); in both cases the container is
+    exactly as before the item, and a whole `replace…` call ends in the state reached by the items
+    before the failing one, which is again consistent. -/
+theorem replace_failure_atomic (U : Universe) (s : State) :
+    (∀ old new e c, replace1 U s old new = .error (e, c) →
+      ((old ∉ s.sds ∧ e = .keyError ∧ c = []) ∨
+       (old ∈ s.sds ∧ e = .notImplementedError ∧
+          (plannedCalls U s old new).any (callFails U) = true)) ∧
+      (replaceMany U s [(old, new)]).1 = s) ∧
+    (∀ im sm, Inv U s → wfReplace U s sm = true →
+      Inv U (step U s (.replace im sm)).state) := by
+  refine ⟨?_, ?_⟩
+  · intro old new e c h
+    refine ⟨replace1_error h, ?_⟩
+    simp [replaceMany, h]
+  · intro im sm hr hw
+    exact inv_step (.replace im sm) hr hw
 
 /-! ### rejected calls -/
 
@@ -362,7 +452,7 @@ theorem rejections (U : Universe) (s : State) :
       addInterface U s i [a, b] = .error .valueError) ∧
     (∀ i a b, s.sds = [] → ∃ e, addInterface U s i [a, b] = .error e) ∧
     (∀ g, g ∉ s.sds → removeSubdomain s g = .error .keyError) ∧
-    (∀ old new, old ∉ s.sds → replace1 U s old new = .error .keyError) ∧
+    (∀ old new, old ∉ s.sds → replace1 U s old new = .error (.keyError, [])) ∧
     (∀ op, (step U s op).err ≠ none → (∀ im sm, op = .replace im sm → sm.length ≤ 1) →
       (step U s op).state = s) := by
   refine ⟨?_, ?_, ?_, ?_, ?_, ?_, ?_, ?_, ?_⟩
@@ -442,7 +532,8 @@ theorem valid_calls_accepted (U : Universe) (s : State) :
       U.sdDim b < U.sdDim a + 3 →
       addInterface U s i [a, b] = .ok { s with pairs := s.pairs ++ [(i, (sort2 U a b).1, (sort2 U a b).2)] }) ∧
     (∀ g, g ∈ s.sds → ∃ s', removeSubdomain s g = .ok s') ∧
-    (∀ old new, old ∈ s.sds → ∃ r, replace1 U s old new = .ok r) := by
+    (∀ old new, old ∈ s.sds → (plannedCalls U s old new).any (callFails U) = false →
+      ∃ r, replace1 U s old new = .ok r) := by
   refine ⟨?_, ?_, ?_, ?_⟩
   · intro gs hn hd
     unfold addSubdomains
@@ -460,10 +551,219 @@ theorem valid_calls_accepted (U : Universe) (s : State) :
     rw [if_neg (by rw [hc]; exact Bool.false_ne_true), if_neg hcd, sortPair_eq_sort2 U s ha hb]
   · intro g hg
     exact ⟨_, removeSubdomain_eq hg⟩
-  · intro old new ho
-    cases hr : replace1 U s old new with
-    | error e => exact absurd ho (replace1_error hr).1
-    | ok r => exact ⟨r, rfl⟩
+  · intro old new ho hs
+    exact ⟨_, replace1_eq_ok ho hs⟩
+
+/-! ### data dictionaries -/
+
+/-- PROPERTY (data dictionaries): in a consistent container every present subdomain, interface and
+    boundary grid has its data dictionary and absent ones have none (the getters raise KeyError);
+    no dictionary is shared between two keys of any kind. -/
+theorem data_dictionaries_consistent (U : Universe) (d : DState) (hi : DInv U d) :
+    (∀ g, (g ∈ d.core.sds → ∃ t, dataOfSd d g = some t) ∧ (g ∉ d.core.sds → dataOfSd d g = none)) ∧
+    (∀ i, (i ∈ d.core.intfs → ∃ t, dataOfIf d i = some t) ∧ (i ∉ d.core.intfs → dataOfIf d i = none)) ∧
+    (∀ b, (b ∈ d.core.bgs.map (·.2) → ∃ t, dataOfBg d b = some t) ∧
+          (b ∉ d.core.bgs.map (·.2) → dataOfBg d b = none)) ∧
+    (allToks d).Nodup ∧
+    (∀ g g' t, dataOfSd d g = some t → dataOfSd d g' = some t → g = g') := by
+  refine ⟨?_, ?_, ?_, hi.tokNodup, ?_⟩
+  · intro g
+    exact ⟨fun h => lookup_of_key_mem (by rw [hi.sdKeys]; exact h),
+      fun h => lookup_eq_none_iff.2 (by rw [hi.sdKeys]; exact h)⟩
+  · intro i
+    exact ⟨fun h => lookup_of_key_mem (by rw [hi.ifKeys]; exact h),
+      fun h => lookup_eq_none_iff.2 (by rw [hi.ifKeys]; exact h)⟩
+  · intro b
+    exact ⟨fun h => lookup_of_key_mem (by rw [hi.bgKeys]; exact h),
+      fun h => lookup_eq_none_iff.2 (by rw [hi.bgKeys]; exact h)⟩
+  · intro g g' t h h'
+    have hn : (d.sdData.map (·.2)).Nodup := by
+      have := hi.tokNodup
+      simp only [allToks, append_assoc] at this
+      exact (nodup_append.1 this).1
+    exact eq_of_lookup_eq_some hn h h'
+
+/-- PROPERTY (data travels with replacement): replacing `old` by a fresh `new` of the same
+    dimension hands `old`'s data dictionary over to `new` and the dictionary of `old`'s boundary
+    grid over to `new`'s freshly created boundary grid; the dictionaries of all interfaces and of
+    all other subdomains and boundary grids stay where they were. -/
+theorem replace_data_travels (U : Universe) (d : DState) (hi : DInv U d) {old new : Nat}
+    (ho : old ∈ d.core.sds) (hn : new ∉ d.core.sds) (hd : U.sdDim new = U.sdDim old)
+    (hsup : (plannedCalls U d.core old new).any (callFails U) = false) :
+    ∃ d' c, dReplace1 U d old new = .ok (d', c) ∧ DInv U d' ∧
+      dataOfSd d' new = dataOfSd d old ∧ dataOfSd d' old = none ∧
+      (∀ x, x ≠ old → x ≠ new → dataOfSd d' x = dataOfSd d x) ∧
+      (∀ i, dataOfIf d' i = dataOfIf d i) ∧
+      (∀ bOld, bgOfSd d.core old = some bOld →
+        bgOfSd d'.core new = some d.core.nextBg ∧
+        dataOfBg d' d.core.nextBg = dataOfBg d bOld ∧ dataOfBg d' bOld = none ∧
+        ∀ b, b ≠ bOld → b ≠ d.core.nextBg → dataOfBg d' b = dataOfBg d b) ∧
+      (bgOfSd d.core old = none → ∀ b, dataOfBg d' b = dataOfBg d b) := by
+  have hne : new ≠ old := fun e => hn (e ▸ ho)
+  have hr := replace1_eq_ok ho hsup
+  obtain ⟨d', c, hd'⟩ : ∃ d' c, dReplace1 U d old new = .ok (d', c) := by
+    unfold dReplace1; rw [hr]; exact ⟨_, _, rfl⟩
+  obtain ⟨hr', hsd, hif, hbg, _⟩ := dReplace1_ok hd'
+  obtain ⟨t, ht⟩ := lookup_of_key_mem (l := d.sdData) (k := old) (by rw [hi.sdKeys]; exact ho)
+  have hnk : new ∉ d.sdData.map (·.1) := by rw [hi.sdKeys]; exact hn
+  refine ⟨d', c, hd', dinv_replace1 hi hn hd hd', ?_, ?_, ?_, ?_, ?_, ?_⟩
+  · unfold dataOfSd; rw [hsd, moveKey_lookup_new ht hne hnk, ht]
+  · unfold dataOfSd; rw [hsd, moveKey_eq ht hne, lookup_append, lookup_filter_self]
+    simp [lookup, hne]
+  · intro x hxo hxn
+    unfold dataOfSd; rw [hsd, moveKey_lookup_other ht hne hxo hxn]
+  · intro i; unfold dataOfIf; rw [hif]
+  · intro bOld hb
+    unfold bgOfSd at hb
+    have hmem := mem_of_lookup_eq_some hb
+    have hfresh : d.core.nextBg ≠ bOld := by
+      have := hi.core.bgFresh _ hmem
+      simp only [] at this
+      omega
+    obtain ⟨tb, htb⟩ := lookup_of_key_mem (l := d.bgData) (k := bOld)
+      (by rw [hi.bgKeys]; exact mem_map.2 ⟨_, hmem, rfl⟩)
+    have hfk : d.core.nextBg ∉ d.bgData.map (·.1) := by
+      rw [hi.bgKeys]
+      intro hm
+      rcases mem_map.1 hm with ⟨b, hbm, hbe⟩
+      have := hi.core.bgFresh b hbm
+      omega
+    rw [hb] at hbg
+    simp only [] at hbg
+    have hcore : d'.core = replaceState U d.core old new := (replace1_ok hr').2.1
+    have hany : d.core.bgs.any (fun b => b.1 == old) = true := any_eq_true.2 ⟨_, hmem, by simp⟩
+    have hnkb : new ∉ d.core.bgs.map (·.1) := by
+      rw [hi.core.bgKeys]; intro hm; exact hn (mem_filter.1 hm).1
+    refine ⟨?_, ?_, ?_, ?_⟩
+    · rw [hcore]; unfold replaceState bgOfSd
+      simp only [if_pos hany]
+      rw [lookup_filter_ne _ hne, lookup_append, lookup_eq_none_iff.2 hnkb]
+      simp [lookup]
+    · unfold dataOfBg; rw [hbg, moveKey_lookup_new htb hfresh hfk, htb]
+    · unfold dataOfBg; rw [hbg, moveKey_eq htb hfresh, lookup_append, lookup_filter_self]
+      simp [lookup, hfresh]
+    · intro b hb1 hb2
+      unfold dataOfBg; rw [hbg, moveKey_lookup_other htb hfresh hb1 hb2]
+  · intro hb b
+    unfold bgOfSd at hb
+    rw [hb] at hbg
+    unfold dataOfBg; rw [hbg]
+
+/-- PROPERTY (data frame of the other calls): `add_subdomains` / `add_interface` leave every
+    existing dictionary where it is; `remove_subdomain(g)` drops `g`'s dictionary and keeps those of
+    all other subdomains and of all surviving interfaces and boundary grids. -/
+theorem data_frame (U : Universe) (d : DState) :
+    (∀ gs d', dAddSubdomains U d gs = .ok d' →
+      (∀ x t, dataOfSd d x = some t → dataOfSd d' x = some t) ∧
+      (∀ i, dataOfIf d' i = dataOfIf d i) ∧
+      (∀ b t, dataOfBg d b = some t → dataOfBg d' b = some t)) ∧
+    (∀ i pair d', dAddInterface U d i pair = .ok d' →
+      (∀ x, dataOfSd d' x = dataOfSd d x) ∧ (∀ b, dataOfBg d' b = dataOfBg d b) ∧
+      (∀ j t, dataOfIf d j = some t → dataOfIf d' j = some t)) ∧
+    (∀ g d', dRemoveSubdomain d g = .ok d' →
+      dataOfSd d' g = none ∧ (∀ x, x ≠ g → dataOfSd d' x = dataOfSd d x) ∧
+      (∀ i, i ∈ d'.core.intfs → dataOfIf d' i = dataOfIf d i) ∧
+      (∀ b, b ∈ d'.core.bgs.map (·.2) → dataOfBg d' b = dataOfBg d b)) := by
+  refine ⟨?_, ?_, ?_⟩
+  · intro gs d' h
+    unfold dAddSubdomains at h
+    cases ha : addSubdomains U d.core gs with
+    | error e => rw [ha] at h; cases h
+    | ok s' =>
+      rw [ha] at h; simp only [] at h; cases h
+      exact ⟨fun x t hx => lookup_append_of_some hx, fun i => rfl,
+        fun b t hb => lookup_append_of_some hb⟩
+  · intro i pair d' h
+    unfold dAddInterface at h
+    cases ha : addInterface U d.core i pair with
+    | error e => rw [ha] at h; cases h
+    | ok s' =>
+      rw [ha] at h; simp only [] at h; cases h
+      exact ⟨fun x => rfl, fun b => rfl, fun j t hj => lookup_append_of_some hj⟩
+  · intro g d' h
+    unfold dRemoveSubdomain at h
+    cases hr : removeSubdomain d.core g with
+    | error e => rw [hr] at h; cases h
+    | ok s' =>
+      rw [hr] at h; simp only [] at h; cases h
+      refine ⟨lookup_filter_self g _, fun x hx => lookup_filter_ne _ hx, ?_, ?_⟩
+      · intro i hi'
+        exact lookup_filter_key (fun k => s'.intfs.contains k) d.ifData (by simpa using hi')
+      · intro b hb
+        exact lookup_filter_key (fun k => (s'.bgs.map (·.2)).contains k) d.bgData (by simpa using hb)
+
+/-! ### `copy()` -/
+
+def WReachable (U : Universe) (w : World) : Prop :=
+  ∃ os, wfWorld U World.init os = true ∧ w = wrun U World.init os
+
+/-- Main induction for several containers: whatever well-formed calls are made, in whatever
+    interleaving, on a container and on its (copies of) copies, every container stays consistent
+    (`DInv`, which contains `Inv`), so every property theorem of this file holds for each of them. -/
+theorem world_inv (U : Universe) (w : World) (h : WReachable U w) :
+    ∀ d ∈ w.conts, DInv U d ∧ Inv U d.core := by
+  obtain ⟨os, hw, rfl⟩ := h
+  intro d hd
+  have := winv_run os (winv_init U) hw d hd
+  exact ⟨this.1, this.1.core⟩
+
+/-- PROPERTY (`copy()`): the copy is a new container with exactly the content of the original —
+    the same grid, mortar-grid and boundary-grid objects and the very same data dictionaries —
+    and making it changes no existing container; afterwards a call on one container changes no
+    other container, so a copy and its original evolve independently (while sharing objects). -/
+theorem copy_shares_and_is_independent (U : Universe) (w : World) :
+    (∀ k d, w.conts[k]? = some d →
+      (wstep U w (.copy k)).conts = w.conts ++ [d] ∧
+      (wstep U w (.copy k)).conts[w.conts.length]? = some d ∧
+      ∀ j, j < w.conts.length → (wstep U w (.copy k)).conts[j]? = w.conts[j]?) ∧
+    (∀ k op j, j ≠ k → (wstep U w (.on k op)).conts[j]? = w.conts[j]?) ∧
+    (∀ k op, (wstep U w (.on k op)).conts.length = w.conts.length) := by
+  refine ⟨?_, ?_, ?_⟩
+  · intro k d hk
+    have hstep : wstep U w (.copy k) = { w with conts := w.conts ++ [d] } := by
+      simp [wstep, hk]
+    rw [hstep]
+    refine ⟨rfl, getElem?_concat_length, ?_⟩
+    intro j hj
+    exact getElem?_append_left hj
+  · intro k op j hj
+    simp only [wstep]
+    cases hk : w.conts[k]? with
+    | none => rfl
+    | some d => simp only []; exact getElem?_set_ne (Ne.symm hj)
+  · intro k op
+    simp only [wstep]
+    cases hk : w.conts[k]? with
+    | none => rfl
+    | some d => simp
+
+/-- a whole history of calls on other containers (and further copies) leaves container `k` as it is -/
+theorem other_containers_histories (U : Universe) (k : Nat) (os : List WOp) (w : World)
+    (hk : k < w.conts.length)
+    (hos : ∀ o ∈ os, match o with | .on m _ => m ≠ k | .copy _ => True) :
+    (wrun U w os).conts[k]? = w.conts[k]? := by
+  induction os generalizing w with
+  | nil => rfl
+  | cons o os ih =>
+    simp only [wrun]
+    have ho := hos o mem_cons_self
+    have hrest : ∀ o' ∈ os, match o' with | .on m _ => m ≠ k | .copy _ => True :=
+      fun o' h' => hos o' (mem_cons_of_mem _ h')
+    cases o with
+    | on m op =>
+      simp only [] at ho
+      have hlen := (copy_shares_and_is_independent U w).2.2 m op
+      rw [ih _ (by rw [hlen]; exact hk) hrest]
+      exact (copy_shares_and_is_independent U w).2.1 m op k (Ne.symm ho)
+    | copy m =>
+      cases hm : w.conts[m]? with
+      | none =>
+        have : wstep U w (.copy m) = w := by simp [wstep, hm]
+        rw [this]; exact ih w hk hrest
+      | some d =>
+        obtain ⟨hc, _, hj⟩ := (copy_shares_and_is_independent U w).1 m d hm
+        rw [ih _ (by rw [hc]; simp; omega) hrest]
+        exact hj k hk
 
 /-! ### non-vacuity: a concrete history (3-d, 2-d, two 1-d, one 0-d grid) -/
 
@@ -494,5 +794,28 @@ example : (step exU (run exU State.empty exOps) (.addInterface 1 [0, 4])).err = 
   decide
 example : (step exU (run exU State.empty exOps) (.removeSubdomain 6)).state =
     ⟨[0, 4, 5], [(3, 5, 4)], [(0, 1), (5, 4)], 6⟩ := by decide
+
+
+/-- replacing the 3-d grid 0 while it is the primary side of the 2-d mortar grid 0 is not
+    implemented: the call fails and changes nothing -/
+example : (step exU ⟨[0, 1], [(0, 0, 1)], [(0, 0), (1, 1)], 2⟩ (.replace [] [(0, 6)])).err
+    = some .notImplementedError := by decide
+example : (step exU ⟨[0, 1], [(0, 0, 1)], [(0, 0), (1, 1)], 2⟩ (.replace [] [(0, 6)])).state
+    = ⟨[0, 1], [(0, 0, 1)], [(0, 0), (1, 1)], 2⟩ := by decide
+
+/-- two containers: fill, copy, then replace grid 2 by 5 in the copy and remove grid 1 in the original -/
+def exW : List WOp :=
+  [.on 0 (.addSubdomains [2, 0]), .on 0 (.addSubdomains [1, 4, 3]), .on 0 (.addInterface 1 [2, 1]),
+   .copy 0, .on 1 (.replace [] [(2, 5)]), .on 0 (.removeSubdomain 1), .on 1 (.addSubdomains [6])]
+
+example : wfWorld exU World.init exW = true := by decide
+example : WReachable exU (wrun exU World.init exW) := ⟨exW, by decide, rfl⟩
+example : (wrun exU World.init exW).conts.map (fun d => (d.core.sds, d.core.pairs)) =
+    [([2, 0, 4, 3], []), ([0, 1, 4, 3, 5, 6], [(1, 1, 5)])] := by decide
+/-- grid 5 of the copy holds the dictionary grid 2 has in the original; so do their boundary grids -/
+example : dataOfSd ((wrun exU World.init exW).conts.getD 1 DState.empty) 5
+    = dataOfSd ((wrun exU World.init exW).conts.getD 0 DState.empty) 2 := by decide
+example : dataOfBg ((wrun exU World.init exW).conts.getD 1 DState.empty) 4
+    = dataOfBg ((wrun exU World.init exW).conts.getD 0 DState.empty) 0 := by decide
 
 end PorepyVerif.C24
